@@ -59,10 +59,13 @@ Definition k_map (cm : connmap) (ns : list pname) : list Z :=
 Definition enc_constr (c : constr) : list Z :=
   enc_path (fst (c_port c)) ++ [snd (c_port c); match c_bit c with Some k => k | None => -1 end; c_pin c]
   ++ enc_alist (c_attrs c).
-Definition k_constraints (t : table) (cm : connmap) (h : list req) : list Z :=
+Definition k_constraints (t : table) (cm : connmap) (h : list req) (with_n with_attrs with_clocks : bool) : list Z :=
   let (st, outs) := run t cm h in
   let ports := concat (map (fun qv => value_ioports (snd qv)) (granted outs)) in
-  let cs := port_constraints ports in
-  [zlen cs] ++ concat (map enc_constr cs)
-  ++ [zlen (clock_constraints st)]
-  ++ concat (map (fun e => enc_path (fst (fst e)) ++ [snd (fst e); snd e]) (clock_constraints st)).
+  (* iCE40/ECP5 buffers use only the p port of a differential pair: n is not a design port *)
+  let used := filter (fun p => with_n || negb (snd (io_name p) =? 2)) ports in
+  let cs := port_constraints used in
+  let cks := if with_clocks then clock_constraints st else [] in
+  [zlen cs] ++ concat (map (fun c => enc_constr (if with_attrs then c else mkC (c_port c) (c_bit c) (c_pin c) [])) cs)
+  ++ [zlen cks]
+  ++ concat (map (fun e => enc_path (fst (fst e)) ++ [snd (fst e); snd e]) cks).
